@@ -424,7 +424,7 @@ class Fn:
                 Fn._read_locals(v_, out)
         return out
 
-    def forward_taint(self, seed):
+    def forward_taint(self, seed, barrier=None):
         """flow-insensitive forward data slice inside one body.  seed(place) -> bool marks the reads that start it (a place: {"l":.., "p":[..]}).
         A statement taints its destination when it reads a seed place or a tainted local; a call taints its destination when an argument is tainted,
         and — `v.push(x)`, `set.extend(xs)` — the local behind a `&mut` argument when another argument is.
@@ -483,6 +483,8 @@ class Fn:
                 t = blk["term"]
                 if t["k"] == "call":
                     hot = [i for i, a in enumerate(t["args"]) if seeded(a) or (self._read_locals(a) & T)]
+                    if hot and barrier is not None and barrier(self.call_at(b)):
+                        hot = []        # e.g. a cryptographic digest: what comes out says nothing about what went in
                     if hot:
                         d = t["dest"]["l"]
                         if d not in T:
